@@ -314,9 +314,17 @@ class Executor:
         if hi is not None: cands = [k for k in cands if k <= hi]
         if not cands: raise Unsupported("symbolic table read with no candidate cells")
         if len(cands) > 600: raise Unsupported("table too large for ite chain")
-        v = o.cells[cands[-1]][1]
-        for k in reversed(cands[:-1]):
-            v = smt.ite(smt.eq(off, k), o.cells[k][1], v)
+        vals = [o.cells[k][1] for k in cands]
+        v = None
+        if len(cands) >= 2 and all(isinstance(x, int) and not isinstance(x, bool) for x in vals) \
+           and all(cands[i + 1] - cands[i] == n for i in range(len(cands) - 1)) \
+           and all(vals[i + 1] - vals[i] == vals[1] - vals[0] for i in range(len(vals) - 1)):
+            # affine table (e.g. "0123456789"): read it arithmetically instead of through an ite chain
+            v = smt.add(vals[0], smt.mul(smt.fdiv(smt.sub(off, cands[0]), n), vals[1] - vals[0]))
+        if v is None:
+            v = vals[-1]
+            for k in reversed(cands[:-1]):
+                v = smt.ite(smt.eq(off, k), o.cells[k][1], v)
         # alignment obligation: off must be one of the candidates
         self.prove(st, smt.or_(*[smt.eq(off, k) for k in cands]), "table index aligned for %s" % o.name)
         return v
@@ -546,6 +554,12 @@ class Executor:
             sys.stderr.write("[slow query %.1fs -> %s] %s\n" % (dt, r, smt.to_smt(extra)[:300]))
         self.res.queries += 1; self.res.solver_time += time.time() - t0
         return r
+    def implied(self, st, c):
+        """True / False if the path condition decides c, else None"""
+        if c is True or c is False: return c
+        if not self.feasible(smt.not_(c)): return True
+        if not self.feasible(c): return False
+        return None
     def feasible(self, c):
         if c is True: return True
         if c is False: return False
@@ -721,6 +735,37 @@ class Executor:
                 stop = smt.eq(a, 0) if name == "strncmp" else False
                 res = smt.ite(smt.lt(a, b), -1, smt.ite(smt.lt(b, a), 1, smt.ite(stop, 0, res) if stop is not False else res))
             return res
+        if name == "strchr":
+            # haystack: a concrete NUL-terminated constant; needle: any (symbolic) char.  The result pointer keeps a symbolic
+            # offset inside runs of consecutive character codes ("0123456789"), so digit loops do not fork per digit value.
+            from .irparse import I8 as _I8
+            hay = []
+            for i in range(256):
+                b = self.load(st, Ptr(args[0].obj, smt.add(args[0].off, i)), _I8)
+                if is_sym(b): raise Unsupported("strchr with a symbolic haystack")
+                hay.append(b & 255)
+                if b == 0: break
+            c = args[1]
+            if isinstance(c, Undef): raise Unsupported("strchr of undef")
+            cu = smt.fmod(c, 256) if is_sym(c) else (c % 256)       # strchr converts its int argument to char
+            if not is_sym(cu):
+                return Ptr(args[0].obj, smt.add(args[0].off, hay.index(cu))) if cu in hay else NULL
+            seen = set(); alts = []; i = 0
+            rest = []
+            while i < len(hay):
+                j = i
+                while j + 1 < len(hay) and hay[j + 1] == hay[j] + 1 and hay[j + 1] not in seen: j += 1
+                run = [h for h in hay[i:j + 1]]
+                if hay[i] not in seen:
+                    cond = smt.and_(smt.le(hay[i], cu), smt.le(cu, hay[j])) if j > i else smt.eq(cu, hay[i])
+                    off = smt.add(args[0].off, smt.add(i, smt.sub(cu, hay[i])))
+                    alts.append((cond, (lambda s, r=ins_res_holder, v=Ptr(args[0].obj, off): None)))
+                    alts[-1] = (cond, Ptr(args[0].obj, off))
+                    rest.append(smt.not_(cond))
+                for h in run: seen.add(h)
+                i = j + 1
+            alts.append((smt.and_(*rest), NULL))
+            raise _ValueFork(alts)
         if name == "strcmp":
             # the second operand must be a concrete NUL-terminated string (a literal); the first may be symbolic
             from .irparse import I8 as _I8
@@ -1048,7 +1093,10 @@ class Executor:
                     name = fp.obj[1]
                 else:
                     raise Unsupported("indirect call through %r" % (fp,))
-            kind, rv = self.call(st, name, args)
+            try:
+                kind, rv = self.call(st, name, args)
+            except _ValueFork as vf:
+                raise _Fork([(c, (lambda s, r=ins.res, v=v: self._set_and_advance(s, r, v))) for c, v in vf.alts])
             if kind == "value":
                 if ins.res is not None: fr.locals[ins.res] = rv
                 return "next"
@@ -1288,3 +1336,8 @@ def _insert(agg, idx, v, mod, ty):
 class _Fork(Exception):
     def __init__(self, alts, check=False):
         self.alts = alts; self.check = check
+
+class _ValueFork(Exception):
+    """a builtin whose return value is one of several (condition, value) alternatives"""
+    def __init__(self, alts): self.alts = alts
+ins_res_holder = None
